@@ -20,7 +20,13 @@
    own) and Alike ones that render alike (AlikeBase+1 ..: anonymous functions,
    objects differing in hidden members ...).  With Site = ByRender (every site
    sorts, but by the renderings alone) a collection holding two alike elements
-   shows its internal order at every sorting site: TLC lists the programs. *)
+   shows its internal order at every sorting site: TLC lists the programs.
+
+   Round 4: the table value "rawbig" (OrderOps!RawAt): a site that walks the
+   host container only when the collection has more than BigAbove members.
+   With Site = AllRawBig (Order_bigraw.cfg) collections of <= BigAbove members
+   show nothing (SmallBlind) and the larger ones show their internal order in
+   the same programs as with AllRaw. *)
 EXTENDS OrderOps, Json, IOUtils
 
 CONSTANTS N,        \* a collection holds at most N elements
@@ -35,6 +41,7 @@ SiteSpec     == AllSorted
 SiteByRender == ByRender
 SiteByFold   == ByFold
 SiteAllRaw   == AllRaw
+SiteRawBig   == AllRawBig
 SiteObserved == LET t == JsonDeserialize(IOEnv.SITE_FILE) IN [s \in TabKeys |-> t[s]]
 
 VARIABLES prog,     \* index into Programs (0 while the collection is under construction)
@@ -132,6 +139,12 @@ SortedIsEnumeration ==
 (* the property *)
 OrderIndependence == Done => cur.seq = RefEval(Stages, base.elems)
 
+(* round 4: a site that switches to the raw walk only above a size threshold shows nothing on collections up to
+   that size - with Site = AllRawBig (Order_bigraw.cfg) this holds and ReportVary lists what the big ones show;
+   it is why the harness needs collections larger than any plausible threshold, not only the pools of <= 9 *)
+SmallBlind == (Done /\ Cardinality(base.elems) <= BigAbove) => cur.seq = RefEval(Stages, base.elems)
+BigOnly    == (Done /\ cur.seq # RefEval(Stages, base.elems)) => IsBig(base)
+
 (* every (program, internal order) whose observation differs from the sorted one *)
 ReportVary ==
   (Done /\ cur.seq # RefEval(Stages, base.elems)) =>
@@ -148,7 +161,7 @@ ASSUME RelationsOK
 ASSUME LET t == Site IN /\ DOMAIN t = TabKeys
                         /\ t["relation"] \in {"total", "render"}
                         /\ t["strings"] \in {"exact", "folded"}
-                        /\ \A s \in Sites : t[s] \in {"sorted", "raw"}
+                        /\ \A s \in Sites : t[s] \in {"sorted", "raw", "rawbig"}
 
 (* the program table, for the harness (evaluated once) *)
 ASSUME PrintT("@@PROGS@@" \o ToJson(
